@@ -624,11 +624,11 @@ func (t *tree) parseAttrs(allowedNames ...string) map[string]string {
 			}
 			t.expect(itemEquals, "attribute")
 			var attrval = t.expect(itemString, "attribute")
-			var err error
-			result[tok.val], err = strconv.Unquote(attrval.val)
-			if err != nil {
-				t.error(err)
-			}
+			// the value is the text between the quotes as it stands; only a double
+			// quote has to be written \" there. (Reading it as a Go string literal
+			// would undo the escapes of the string literals in an expression - 'a\\n'
+			// is a backslash and an n - and would refuse a line break in a description.)
+			result[tok.val] = strings.Replace(attrval.val[1:len(attrval.val)-1], `\"`, `"`, -1)
 		case itemRightDelim, itemRightDelimEnd:
 			t.backup()
 			return result
